@@ -318,18 +318,15 @@ func run(c Case) vt.Verdict {
 		// A hard-link request aimed at a soft/external link touches the link's pseudo object header (reference
 		// count message) and is stored as a hard link to that pseudo object: consequence of KF-C03-01.
 		aimedAtLink := false
-		aliases := map[string]bool{}
 		for _, op := range c.Ops {
 			if op.K == "hard" {
 				if l := paths[op.Target]; l != nil && l.Kind != "hard" {
 					aimedAtLink = true
-					aliases[op.Path] = true
 				}
 			}
 			for _, dl := range op.Links {
 				if l := paths[dl[1]]; l != nil && l.Kind != "hard" {
 					aimedAtLink = true
-					aliases[strings.TrimSuffix(op.Path, "/")+"/"+dl[0]] = true
 				}
 			}
 		}
@@ -346,7 +343,7 @@ func run(c Case) vt.Verdict {
 			if p.Kind == "indep-refcount" {
 				continue // reference counts are C05's concern (KF-C05-refcount)
 			}
-			if p.Kind == "indep-link-value" && (underDense(p.Path) || (aliases[p.Path] && strings.Contains(p.Detail, "stored as hard"))) {
+			if p.Kind == "indep-link-value" && (underDense(p.Path) || (aimedAtLink && strings.Contains(p.Detail, "stored as hard"))) {
 				// a dense group's link to a soft/external link's pseudo object (KF-C03-01) is a hard link record
 				v := vt.KnownOr(kfLinkObj, "%s", p)
 				if v.Kind == vt.Violation {
